@@ -130,6 +130,15 @@ CLAIMED = {
             "all clauses: every dereference behind a null check; every write through the output pointer enumerated and its extent "
             "classified < / <= buf_cap from all definitions (min, saturating_sub, +1, guarded -1); NUL position == copied count == "
             "return value; source is the encoded response without offset; writes only when buf_cap != 0; early returns are constants", "5/C26"),
+    "C27": ("await-chain dominance over coroutine MIR (poll resolved to the polled coroutine), loop-exit and edge-removal reachability, lock-region must-analysis; wasm.rs type-checked for the host through a generated harness crate that #[path]-includes the repository's file",
+            "ONE half only ('every commit whose promise resolved is fully present'), through six structural clauses: commit/create reach "
+            "Ok only through Poll::Ready(Ok) of the backend flush after the core write; the flush await chain is unbroken and forwards "
+            "results; PendingWrites::flush takes the whole receiver list, awaits every receiver, records every failure; every in-memory "
+            "mutation schedules a whole-file snapshot or a delete and every JsFile mutator sets dirty; schedule registers receiver, "
+            "data and sender on every path and starts a worker unless one is in flight, in one critical section; the worker stops only "
+            "on 'nothing pending' seen under the lock, clears inflight there, notifies every waiter after each persist and reports "
+            "failure. NOT decided: anything depending on the order in which the browser runs persistence tasks / completes IndexedDB "
+            "requests (in particular 'never a partial commit' after a reload)", "5/C27"),
     "C28": ("taint/sanitiser flow over MIR (deserialised paths must be re-rooted), constructor who-may-call, path-builder provenance",
             "a manifest loaded from disk is re-rooted at the opened directory before it is published; SegmentPaths are built only by "
             "directory::segment_paths as root.join(name-with-id); every root handed to the path builders derives from the opened "
@@ -150,7 +159,6 @@ CLAIMED = {
 }
 
 NA = {
-    "C27": "quantifies over orderings of browser tasks / IndexedDB completions and the module is cfg(target_arch=\"wasm32\"): no wasm32 target is installed, so the code cannot be type-checked here",
 }
 
 
